@@ -308,4 +308,8 @@ theorem C15_code_has_option_iff_options (ini : Ini) (superHasOption : String →
     simp only [if_true, Bool.false_eq_true, if_false, Bool.not_true, Bool.false_and, Bool.or_false, List.any_eq_true, beq_iff_eq,
       Except.ok.injEq, exists_eq_left', List.mem_map]
 
+/-- non-vacuity of the hypotheses of `C15_code_options` / `C15_code_has_option_iff_options`: a file with one `[Tabulation]` section meets them -/
+example : ([("Tabulation", [("target", "LAMMPS")])] : List (String × List KV)).Pairwise (fun a b => a.1 ≠ b.1) ∧ "Tabulation" ≠ "" ∧ "Tabulation" ≠ "Variables" := by
+  simp
+
 end Atsim.C15
